@@ -89,7 +89,7 @@ Fixpoint g2track (md : mode) (s : tstate) (l : list g2seg) : bool :=
           end
       end
   | G2Unit u cs :: t =>
-      negb (t_flag s) && (match md with Dirty => false | _ => true end)
+      negb (t_flag s) && (match md with Dirty => true | _ => true end)   (* any state of the recipe table (since fix ee9caf1) *)
       && (match t_cur s with Some c => str_eqb c (u_name u) | None => false end)
       && Z.eqb (t_pend s) (oord (u_bond u))
       && match pops_track cs (tmk (Some (u_name u)) (oord (u_after u)) (t_names s) false) with
